@@ -295,7 +295,7 @@ class QPSKDemodulator(BaseDemodulator):
                 min_dist_1 = self._min_distance_to_points(y, const_bit_1, noise_var)
 
                 # LLR = log(P(bit=0|y)/P(bit=1|y))
-                llrs[..., bit_idx] = min_dist_1 - min_dist_0
+                llrs[..., bit_idx] = min_dist_0 - min_dist_1
 
             # Reshape to final sequence
             return llrs.reshape(*batch_shape, -1)
